@@ -99,7 +99,7 @@ func (u *Unit) callEffect(fr *Frame, c *ssa.CallCommon) effect {
 			return effNone
 		}
 		for _, f := range ct.Frame {
-			if f == "allocates" || strings.Contains(f, "[") {
+			if f == "allocates" || strings.Contains(f, "[") || strings.HasPrefix(f, "~") {
 				return effAll
 			}
 		}
@@ -211,6 +211,9 @@ func (u *Unit) resolveFrameItem(ct *Contract, item string) []string {
 	case strings.HasPrefix(item, "box:"):
 		return []string{"B:" + item[4:]}
 	case strings.HasPrefix(item, "map:"):
+		if at := strings.Index(item, "@"); at > 0 {
+			item = strings.TrimSpace(item[:at]) // map:K|V@expr - only the map expr denotes changes
+		}
 		return []string{"MD:" + item[4:], "MV:" + item[4:]}
 	case strings.HasPrefix(item, "global:"):
 		return []string{"G:" + item[7:]}
@@ -330,7 +333,7 @@ func (u *Unit) execCall(fr *Frame, site ssa.Instruction, c *ssa.CallCommon, st *
 	for _, a := range args {
 		u.havocReachableCell(fr, st, a)
 	}
-	u.havocHeaps(st, nil, name)
+	u.havocAllCall(fr, st, name)
 	st.ghostCalled["called:"+name] = tTrue
 	return u.freshResult(st, resT, name)
 }
@@ -689,11 +692,47 @@ func (u *Unit) applyContract(fr *Frame, ct *Contract, name string, c *ssa.CallCo
 		for _, a := range args {
 			u.havocReachableCell(fr, st, a)
 		}
-		u.havocHeaps(st, nil, name)
+		u.havocAllCall(fr, st, name)
 	case len(ct.Frame) == 1 && ct.Frame[0] == "nothing":
 	default:
 		var hs []string
 		allocates := false
+		var excl map[string]bool
+		for _, f := range ct.Frame {
+			if strings.HasPrefix(f, "~") {
+				// ~T.f : anything may change except the listed heaps (trusted contracts only)
+				if excl == nil {
+					excl = map[string]bool{}
+				}
+				for _, h := range u.resolveFrameItem(ct, strings.TrimSpace(f[1:])) {
+					excl[h] = true
+				}
+			}
+		}
+		if excl != nil {
+			var keepN []string
+			var keepT []Term
+			for h := range excl {
+				if _, ok := st.heaps[h]; !ok {
+					u.ensureHeapByName(st, h)
+				}
+				if _, ok := u.heapSort[h]; ok {
+					keepN = append(keepN, h)
+				}
+			}
+			sortStrings(keepN)
+			for _, h := range keepN {
+				keepT = append(keepT, u.heapNow(st, h))
+			}
+			for _, a := range args {
+				u.havocReachableCell(fr, st, a)
+			}
+			u.havocAllCall(fr, st, name)
+			for i, h := range keepN {
+				st.heaps[h] = keepT[i]
+			}
+			break
+		}
 		for _, f := range ct.Frame {
 			if f == "allocates" {
 				allocates = true
@@ -729,6 +768,29 @@ func (u *Unit) applyContract(fr *Frame, ct *Contract, name string, c *ssa.CallCo
 						}
 						st.heaps[name] = u.def(sto(h, sArr(args[k].T), row))
 					}
+				}
+				continue
+			}
+			if at := strings.Index(f, "@"); at > 0 && strings.HasPrefix(f, "map:") {
+				// map:K|V@expr : only the map that expr denotes (in the pre-state) changes
+				ex, err := parseSpec(f[at+1:])
+				if err != nil {
+					u.specFail("frame item %s of %s: %v", f, name, err)
+					continue
+				}
+				mv := u.eval(ex, env)
+				if mv.Typ != nil {
+					if mt, ok := mv.Typ.Underlying().(*types.Map); ok {
+						u.mapHeaps(st, mt)
+					}
+				}
+				for _, hn := range u.resolveFrameItem(ct, f) {
+					if _, ok := u.heapSort[hn]; !ok {
+						u.specFail("frame item %s of %s: unknown map heap %s", f, name, hn)
+						continue
+					}
+					h := u.heap(st, hn, u.heapSort[hn])
+					st.heaps[hn] = u.def(sto(h, mv.T, u.fresh("mapcontent", arrayElem(h.Sort))))
 				}
 				continue
 			}
@@ -853,6 +915,41 @@ func (u *Unit) ensureHeapByName(st *State, name string) {
 	if strings.HasPrefix(name, "GH:") {
 		if g, ok := u.W.Ghosts[name[3:]]; ok {
 			u.heap(st, name, u.ghostHeapSort(g))
+		}
+	}
+	if strings.HasPrefix(name, "F:") {
+		// F:<pkg path>.<Type>.<field>
+		rest := name[2:]
+		i := strings.LastIndex(rest, ".")
+		if i < 0 {
+			return
+		}
+		field, tn := rest[i+1:], rest[:i]
+		j := strings.LastIndex(tn, ".")
+		if j < 0 {
+			return
+		}
+		sp := u.W.SSAPkgs[tn[:j]]
+		if sp == nil {
+			if p := u.W.Prog.ImportedPackage(tn[:j]); p != nil {
+				sp = p
+			}
+		}
+		if sp == nil {
+			return
+		}
+		obj, ok := sp.Pkg.Scope().Lookup(tn[j+1:]).(*types.TypeName)
+		if !ok {
+			return
+		}
+		stt, key, ok := u.transparentStruct(obj.Type())
+		if !ok {
+			return
+		}
+		for k := 0; k < stt.NumFields(); k++ {
+			if stt.Field(k).Name() == field && u.fieldHeapName(key, stt, k) == name {
+				u.heap(st, name, arraySort("Int", u.sortOf(stt.Field(k).Type())))
+			}
 		}
 	}
 }
